@@ -128,6 +128,15 @@ def handle : List String → String
       let n := certName s h
       s!"ok {hexOfBytes n} {kindStr (san n)}"
     | _, _ => "bad-op"
+  -- leaf <sni> <connect host>  →  ok <common name> <ip|dns> <san> <cache key> <length of the requested name>
+  --   (the leaf `cert` issues for the handshake on a miss and the key it is stored under; the tree's handling)
+  | ["leaf", sni, host] =>
+    match bytesOfHex sni, bytesOfHex host with
+    | some s, some h =>
+      let n := certName s h
+      let c := certForH .verbatim x509ish 0 (fun _ => none) n 0
+      s!"ok {hexOfBytes c.cn} {kindStr c.kind} {hexOfBytes c.sanVal} {hexOfBytes (cacheKey .verbatim n)} {n.length}"
+    | _, _ => "bad-op"
   -- split <hostport>  →  ok <host> <port> | err
   | ["split", hp] =>
     match bytesOfHex hp with
